@@ -19,6 +19,8 @@ def storage_file():
 
 
 class Controller:
+    timeout = 5.0
+
     def __init__(self, schedule):
         self.schedule = list(schedule)
         self.pos = 0
@@ -40,7 +42,7 @@ class Controller:
                 self._skip()
                 if self.pos >= len(self.schedule) or self.schedule[self.pos] == tid or self.stuck:
                     break
-                if not self.cv.wait(timeout=3.0):
+                if not self.cv.wait(timeout=self.timeout):
                     self.stuck = True
                     self.cv.notify_all()
                     break
